@@ -20,6 +20,7 @@ import (
 
 	"github.com/jackc/pgx/v5/pgconn"
 	"github.com/uptrace/bun"
+	nooptrace "go.opentelemetry.io/otel/trace/noop"
 
 	"github.com/formancehq/go-libs/v5/pkg/storage/bun/paginate"
 	"github.com/formancehq/go-libs/v5/pkg/storage/migrations"
@@ -78,14 +79,11 @@ func (b fakeBucket) GetMigrationsInfo(ctx context.Context, db bun.IDB) ([]migrat
 	return nil, nil
 }
 
-// AddLedger: bucket.AddLedger creates the per-ledger sequences (and installs the per-feature triggers,
-// which sqlmini keys on the ledger's features instead).
+// AddLedger is the REAL bucket.DefaultBucket.AddLedger: it renders the repository's ledgerSetups templates
+// (per-ledger sequences, per-feature triggers) and sends them; the sim driver recognises the DDL
+// (sqlmini_ddl.go).
 func (b fakeBucket) AddLedger(ctx context.Context, db bun.IDB, l ledger.Ledger) error {
-	return b.inc.sysCallOn(ctx, db, "AddLedger", l.Name, []FaultKind{FCrash}, func(sess *Session) error {
-		sess.db.seqs[seqName(l, "transaction_id")] = 0
-		sess.db.seqs[seqName(l, "log_id")] = 0
-		return nil
-	})
+	return bucket.NewDefault(nooptrace.Tracer{}, b.name).AddLedger(ctx, db, l)
 }
 
 // ---- fake system store (only what the storage driver needs) ----
